@@ -18,7 +18,7 @@ struct Cfg {
     parts: Vec<&'static str>,
     preexisting: bool,
     platform: u8,                 // 0 = no env dir, 1 = rich env dir
-    store: &'static str,          // absent | valid | malformed | dangling
+    store: &'static str,          // absent | valid | malformed | dangling | binary (not UTF-8) | directory | loop (symlink to itself)
     plan_file: &'static str,      // ok | missing | binary
 }
 impl Cfg {
@@ -86,6 +86,9 @@ fn run_one(exe_rtbp: &Path, c: &Cfg, r: &mut Report) {
         "valid" => fs::write(layers.join("store.toml"), STORE_TEXT).unwrap(),
         "malformed" => fs::write(layers.join("store.toml"), "metadata = 3").unwrap(),
         "dangling" => symlink(root.join("nowhere"), layers.join("store.toml")).unwrap(),
+        "binary" => fs::write(layers.join("store.toml"), b"[metadata]\nowner = \"Ren\xE9\"\n").unwrap(),
+        "directory" => fs::create_dir(layers.join("store.toml")).unwrap(),
+        "loop" => symlink(layers.join("store.toml"), layers.join("store.toml")).unwrap(),
         _ => {}
     }
     if c.preexisting {
@@ -119,13 +122,14 @@ fn run_one(exe_rtbp: &Path, c: &Cfg, r: &mut Report) {
     // ---- the decision table (executable form of exit_table)
     let gate_closed = c.toml != "ok" || c.exe == "other" || c.argc_delta != 0;
     let mandatory_missing = !c.missing_var.is_empty() && c.missing_var != "CNB_TARGET_ARCH_VARIANT";
-    let inputs_bad = mandatory_missing || (c.exe == "build" && (c.plan_file != "ok" || c.store == "malformed"));
+    let inputs_bad = mandatory_missing || (c.exe == "build" && (c.plan_file != "ok" || ["malformed", "binary", "directory", "loop"].contains(&c.store)));
     let callback = if c.exe == "build" { "build" } else { "detect" };
     let mut expected_after = before.clone();
     if gate_closed {
         if !bad(code) || !log.is_empty() { fail("gate", "unsupported API / wrong executable name / wrong argument count must exit with a code that is neither 0 nor 100 before any buildpack code runs", "code not in {0,100}, log []".into(), format!("code {code}, log {log:?}")); }
     } else if inputs_bad {
         if !bad(code) || log != ["on_error"] { fail("missing_input", "a missing mandatory input never reaches detect/build; the error handler runs once", "code not in {0,100}, log [on_error]".into(), format!("code {code}, log {log:?}")); }
+        if log.iter().any(|l| l == callback) { fail("context", "an input that is missing or cannot be represented is a reported error, never silently dropped: the call-back must not be reached", "call-back not reached".into(), format!("log {log:?}, context handed over: {}", dump.lines().filter(|l| l.starts_with("store=") || l.starts_with("target=")).collect::<Vec<_>>().join(" "))); }
     } else if c.behaviour == "error" {
         if !bad(code) || log != [callback, "on_error"] { fail("callback_error", "a call-back error: handler once, code neither 0 nor 100", format!("code not in {{0,100}}, log [{callback}, on_error]"), format!("code {code}, log {log:?}")); }
     } else if c.exe == "detect" {
@@ -187,7 +191,7 @@ fn run_one(exe_rtbp: &Path, c: &Cfg, r: &mut Report) {
 
 pub fn runtime(thorough: bool) -> Report {
     let mut r = Report::new(
-        "the real libcnb_runtime in a child process (symlinked as detect/build/other): executable name x argument count {ok,-1,+1} x buildpack.toml {supported, unsupported api, malformed, missing, CNB_BUILDPACK_DIR unset} (gate); each CNB_TARGET_* variable unset; detect behaviour {pass, pass+plan, fail, error} x pre-existing plan file x platform env {missing dir, files incl. empty/newlines/space/unicode names, symlink to file, sub-directory, symlink to directory}; build {error, pass with subsets of launch/store x build-SBOM sets (incl. a format given twice) x launch-SBOM sets} x pre-existing outputs x store.toml {absent, valid nested, malformed, dangling symlink} x plan file {ok, missing, non-UTF-8}: exit status, call-back log, context dump and a byte-exact before/after snapshot against the decision table; non-trivial = any non-default dimension",
+        "the real libcnb_runtime in a child process (symlinked as detect/build/other): executable name x argument count {ok,-1,+1} x buildpack.toml {supported, unsupported api, malformed, missing, CNB_BUILDPACK_DIR unset} (gate); each CNB_TARGET_* variable unset; detect behaviour {pass, pass+plan, fail, error} x pre-existing plan file x platform env {missing dir, files incl. empty/newlines/space/unicode names, symlink to file, sub-directory, symlink to directory}; build {error, pass with subsets of launch/store x build-SBOM sets (incl. a format given twice) x launch-SBOM sets} x pre-existing outputs x store.toml {absent, valid nested, malformed, dangling symlink, non-UTF-8, a directory, a symlink loop} x plan file {ok, missing, non-UTF-8}: exit status, call-back log, context dump and a byte-exact before/after snapshot against the decision table; non-trivial = any non-default dimension",
         if thorough { "gate 3x3x5 x behaviours; full products of the dimensions listed" } else { "gate 3x3x5; the other dimensions varied one or two at a time (see rule)" },
     );
     let exe = std::env::current_exe().unwrap().parent().unwrap().join("rtbp");
@@ -212,7 +216,7 @@ pub fn runtime(thorough: bool) -> Report {
             let mut c = Cfg::base("build"); c.parts = ls.iter().chain(bs.iter()).chain(lsb.iter()).cloned().collect(); c.preexisting = pre; c.store = st; cfgs.push(c);
         }
     } } } }
-    for st in ["malformed", "dangling", "valid"] { let mut c = Cfg::base("build"); c.store = st; cfgs.push(c); }
+    for st in ["malformed", "dangling", "valid", "binary", "directory", "loop"] { for parts in [vec![], vec!["store"]] { let mut c = Cfg::base("build"); c.store = st; c.parts = parts; cfgs.push(c); } }
     for pf in ["missing", "binary"] { let mut c = Cfg::base("build"); c.plan_file = pf; cfgs.push(c); }
     { let mut c = Cfg::base("build"); c.behaviour = "error"; cfgs.push(c); }
     { let mut c = Cfg::base("build"); c.platform = 0; cfgs.push(c); }
